@@ -124,6 +124,10 @@ type RouteConfig struct {
 	CreateConnFn           CreateConnFunc
 	ChooseEndpointFn       ChooseEndpointFunc
 	CreateConnByEndpointFn CreateConnByEndpointFunc
+
+	// regID is assigned by HTTPReverseProxy.Register. It is unique per registration and is part of
+	// the key under which idle backend connections are pooled.
+	regID uint64
 }
 
 // listen for a new domain name, if rewriteHost is not empty and rewriteHost func is not nil,
